@@ -110,6 +110,7 @@ def check(ctx: Ctx) -> None:
     from ..dsf import auto_memo_check
     ctx.rule('C18.c', 'no auto-discovered lazily filled cache of the classes in the anchored modules can be stale at the exit of a public method (dependencies = what the fill expression reads, incl. mutating calls on held sub-objects)', floor=4)
     auto_memo_check(ctx, 'C18.c', [RS, SRS, DMRS, 'pyphysim/reference_signals/channel_estimation.py'])
+    _check_inputs_untouched(ctx)
     # ------------------------------------------------------------------ C18.b
     ctx.rule('C18.b', 'shift grids 8 (SRS) / 12 (DMRS); shift assertion and phase; root tables 30 x 12/24 over {+-1,+-3}', floor=5)
     for path, fname, want in ((SRS, 'get_srs_seq', 8), (DMRS, 'get_dmrs_seq', 12)):
@@ -156,6 +157,29 @@ def check(ctx: Ctx) -> None:
                           % (width, detail), RS, 1, operand='table')
 
 
+def _check_inputs_untouched(ctx: Ctx) -> None:
+    from .. import effects
+    M = ctx.model
+    ctx.rule('C18.d', 'the estimators never modify the observation they are given (it is shared between the users multiplexed on it)', floor=3)
+    CE_ = 'pyphysim/reference_signals/channel_estimation.py'
+    targets = [(CE_, 'CazacBasedChannelEstimator.estimate_channel_freq_domain', 'received_signal'),
+               (CE_, 'CazacBasedWithOCCChannelEstimator.estimate_channel_freq_domain', 'received_signal'),
+               ('pyphysim/channel_estimation/estimators.py', 'compute_ls_estimation', None)]
+    for path, q, operand in targets:
+        fn = M.func(path, q)
+        ops = [operand] if operand else [p for p in fn.params if p != 'self']
+        for op in ops:
+            if op not in fn.params:
+                ctx.error('C18.d: parameter %s of %s vanished' % (op, q))
+            construct = '%s(%s)' % (q, op)
+            ctx.instance('C18.d', construct)
+            muts = [e for e in effects.analyse_operand(M, fn, op, check_capture=False) if e.kind == 'mutation']
+            ctx.obligation('C18.d', construct, not muts, {'operand': op, 'mutation_events': [e.what for e in muts]})
+            for e in muts:
+                ctx.violation('C18.d', q, 'the input `%s` is modified in place: %s; the same observation estimated for a second user (or '
+                              'twice) then gives a wrong channel' % (op, e.what), e.fn.path, e.line, operand=op)
+
+
 def synthetic():
     t = [2, 3, 5, 7, 11, 13, 17, 19, 23, 27, 29]
     ref = sieve(29)
@@ -186,6 +210,10 @@ MUTANTS = [
     _TableMutant('benign-reformat-table', RS, '_SMALL_PRIME_LIST', [('table', r' 997, 1009,', ' 997,\n    1009,')], None, benign=True),
     _TableMutant('root-table-bad-phase', RS, 'ROOT_TABLE1', [('table', r"'0': np\.array\(\[-1, 1, 3,", "'0': np.array([-1, 1, 5,")],
                  r'C18\.b:ROOT_TABLE1'),
+    Mutant('occ-applied-in-place-on-view', 'pyphysim/reference_signals/channel_estimation.py',
+           'CazacBasedWithOCCChannelEstimator.estimate_channel_freq_domain',
+           [('replace', 'r_mean = np.mean(r * self.cover_code[:, np.newaxis], axis=0)', 'r *= self.cover_code[:, np.newaxis]\n        r_mean = np.mean(r, axis=0)')],
+           r'C18\.d:CazacBasedWithOCCChannelEstimator\.estimate_channel_freq_domain'),
     Mutant('lookup-strict-less', RS, 'RootSequence._get_largest_prime_lower_than_number',
            [('replace', '_SMALL_PRIME_LIST <= seq_size', '_SMALL_PRIME_LIST < seq_size')], r'C18\.a:.*lookup'),
     Mutant('srs-uses-12-shifts', SRS, 'get_srs_seq', [('replace', 'n_cs, 8)', 'n_cs, 12)')], r'C18\.b:get_srs_seq'),
